@@ -316,62 +316,63 @@ func TestCorrectSpends(t *testing.T) {
 
 // ---- native fuzz target: a byte-decoded tuple -----------------------------------------------------------
 
+// fuzz input layout: flags[3] idx[1] nspent[1] { value[8] pklen[2] pk }* rawtx
+func caseToBytes(c Case) []byte {
+	raw, _ := hex.DecodeString(c.Tx)
+	out := []byte{byte(c.Flags), byte(c.Flags >> 8), byte(c.Flags >> 16), byte(c.Idx), byte(len(c.Spent))}
+	for _, s := range c.Spent {
+		pk, _ := hex.DecodeString(s.Pk)
+		var v [8]byte
+		binary.LittleEndian.PutUint64(v[:], s.Value)
+		out = append(out, v[:]...)
+		out = append(out, byte(len(pk)), byte(len(pk)>>8))
+		out = append(out, pk...)
+	}
+	return append(out, raw...)
+}
+
 func caseFromBytes(b []byte) (Case, bool) {
-	rd := func(n int) []byte {
-		if len(b) < n {
-			n = len(b)
-		}
-		x := b[:n]
-		b = b[n:]
-		return x
-	}
-	u32 := func() uint32 {
-		x := append(rd(4), 0, 0, 0, 0)
-		return binary.LittleEndian.Uint32(x)
-	}
-	blob := func(max int) []byte {
-		h := append(rd(2), 0, 0)
-		n := int(binary.LittleEndian.Uint16(h))
-		if n > max {
-			n %= max + 1
-		}
-		return append([]byte{}, rd(n)...)
-	}
-	if len(b) < 8 {
+	if len(b) < 5 {
 		return Case{}, false
 	}
-	flags := repairFlags(u32())
-	tx := &wire.Tx{Version: u32(), LockTime: u32()}
-	hdr := append(rd(3), 0, 0, 0)
-	nIn := 1 + int(hdr[0])%3
-	idx := int(hdr[1]) % nIn
-	nOut := int(hdr[2]) % 4
-	var spent []wire.TxOut
-	for i := 0; i < nIn; i++ {
-		in := wire.TxIn{PrevIndex: uint32(i), Sequence: u32()}
-		in.PrevHash[0] = byte(i + 1)
-		tx.In = append(tx.In, in)
-		spent = append(spent, wire.TxOut{Value: uint64(u32())})
+	flags := repairFlags(uint32(b[0]) | uint32(b[1])<<8 | uint32(b[2])<<16)
+	idx, n := int(b[3]), int(b[4])
+	b = b[5:]
+	if n < 1 || n > 4 || idx >= n {
+		return Case{}, false
 	}
-	for i := 0; i < nOut; i++ {
-		tx.Out = append(tx.Out, wire.TxOut{Value: uint64(u32()), PkScript: blob(40)})
+	cs := Case{Kind: "fuzz", Idx: idx, Flags: flags}
+	for i := 0; i < n; i++ {
+		if len(b) < 10 {
+			return Case{}, false
+		}
+		v := binary.LittleEndian.Uint64(b)
+		l := int(b[8]) | int(b[9])<<8
+		b = b[10:]
+		if l > len(b) || l > 10100 {
+			return Case{}, false
+		}
+		cs.Spent = append(cs.Spent, SpentOut{v, hex.EncodeToString(b[:l])})
+		b = b[l:]
 	}
-	spent[idx].PkScript = blob(10100)
-	tx.In[idx].ScriptSig = blob(10100)
-	nw := int(append(rd(1), 0)[0]) % 6
-	for i := 0; i < nw; i++ {
-		tx.In[idx].Witness = append(tx.In[idx].Witness, blob(4300))
+	tx, used, err := wire.DecodeTx(b)
+	if err != nil || used != len(b) || len(tx.In) != n {
+		return Case{}, false
 	}
-	cs := Case{Kind: "fuzz", Tx: hex.EncodeToString(tx.Serialize(true)), Idx: idx, Flags: flags}
-	for _, o := range spent {
-		cs.Spent = append(cs.Spent, SpentOut{o.Value, hex.EncodeToString(o.PkScript)})
-	}
+	cs.Tx = hex.EncodeToString(b)
 	return cs, true
 }
 
 func FuzzVerify(f *testing.F) {
-	f.Add([]byte{0xff, 0xff, 0x1f, 0, 2, 0, 0, 0, 0, 0, 0, 0, 0, 0, 0, 0xff, 0xff, 0xff, 0xff, 1, 0, 0, 0, 1, 0, 0x51, 0, 0, 0})
-	f.Add([]byte{0x01, 0x08, 0x02, 0, 1, 0, 0, 0, 0, 0, 0, 0, 0, 0, 1, 0xfe, 0xff, 0xff, 0xff, 9, 0, 0, 0, 2, 0, 0, 0, 0, 0, 0x22, 0, 0x51, 0x20, 1, 2, 3})
+	// seeds: generated spends of every kind (valid signatures and all), so that coverage-guided mutation
+	// starts next to the interesting inputs
+	seedGen := rapid.Custom(func(t *rapid.T) Case { c, _ := genSpend(t, false, false); return c })
+	for i := 0; i < 150; i++ {
+		c := seedGen.Example(i)
+		if len(c.Tx) < 20000 {
+			f.Add(caseToBytes(c))
+		}
+	}
 	f.Fuzz(func(t *testing.T, b []byte) {
 		c, ok := caseFromBytes(b)
 		if !ok {
